@@ -121,6 +121,11 @@ func checkC14(r *Run) {
 			invokes = append(invokes, k)
 		}
 	})
+	if len(invokes) == 0 {
+		// the loop body may have been extracted into a method of the element: h.serveIfMatch(message)
+		c.checkC14ViaHelper(r2, serve, hF, matchM)
+		return
+	}
 	if len(invokes) != 1 {
 		r2.Bad("(*ServeMux).Serve/invoke", serve.Pos(), "dispatcher has %d handler invocations (want one, inside the loop)", len(invokes))
 		return
@@ -265,5 +270,165 @@ func checkC14(r *Run) {
 	}
 	if n == 0 {
 		r3.Lost("topicFilter/construct", "no construction site found")
+	}
+}
+
+// checkC14ViaHelper: Serve ranges over the handlers and calls, for every element, a helper on that element which invokes
+// the element's handler exactly when the element's filter matches the message topic.
+func (c *Ctx) checkC14ViaHelper(r2 *RuleRep, serve *ssa.Function, hF *types.Var, matchM *ssa.Function) {
+	var call *ssa.Call
+	var g *ssa.Function
+	eachInstr(serve, func(in ssa.Instruction) {
+		k, ok := in.(*ssa.Call)
+		if !ok {
+			return
+		}
+		h := c.StaticCalleeOf(&k.Call)
+		if h == nil || h.Pkg != c.Pkg || h.Signature.Recv() == nil || typeName(h.Signature.Recv().Type()) != "serveMuxHandler" {
+			return
+		}
+		call, g = k, h
+	})
+	if call == nil {
+		r2.Bad("(*ServeMux).Serve/invoke", serve.Pos(), "dispatcher never invokes a registered handler")
+		return
+	}
+	// receiver = handlers[i] (possibly via a local copy), i ascending from 0; message = Serve's parameter
+	var idx ssa.Value
+	recv := call.Call.Args[0]
+	if ld, ok := recv.(*ssa.UnOp); ok && ld.Op == token.MUL {
+		switch x := ld.X.(type) {
+		case *ssa.IndexAddr:
+			if _, isH := isLoadOfField(x.X, hF); isH {
+				idx = x.Index
+			}
+		case *ssa.Alloc:
+			for _, st := range c.cellStores[x] {
+				if l2, ok := st.Val.(*ssa.UnOp); ok {
+					if ia, ok := l2.X.(*ssa.IndexAddr); ok {
+						if _, isH := isLoadOfField(ia.X, hF); isH {
+							idx = ia.Index
+						}
+					}
+				}
+			}
+		}
+	}
+	msgArg := -1
+	for i, a := range call.Call.Args {
+		if c.Resolve(a) == ssa.Value(serve.Params[1]) {
+			msgArg = i
+		}
+	}
+	if idx == nil || msgArg < 0 {
+		r2.Bad("(*ServeMux).Serve/invoke", call.Pos(), "the per-element dispatch helper is not called on handlers[i] with the dispatched message")
+		return
+	}
+	if !ascendingFromZero(idx) {
+		r2.Bad("(*ServeMux).Serve/order", call.Pos(), "handlers are not visited in registration order (ascending index from 0)")
+	} else {
+		r2.OK("(*ServeMux).Serve/order", call.Pos(), "ascending range over the handler list")
+	}
+	// the helper call happens for every element: no path from the loop header's body edge round to the header skipping it
+	var header *ssa.BasicBlock
+	if b, ok := idx.(*ssa.BinOp); ok {
+		header = b.Block()
+	} else if p, ok := idx.(*ssa.Phi); ok {
+		header = p.Block()
+	}
+	if header != nil {
+		skip := false
+		for _, ret := range returnsOf(serve) {
+			if _, found := CanReach(serve, call, func(x ssa.Instruction) bool { return x == ssa.Instruction(ret) }, PathQ{BlockInstr: func(x ssa.Instruction) bool { return x.Block() == header }}); found {
+				skip = true
+			}
+		}
+		if iff := blockIf(header); iff != nil {
+			body := header.Succs[0]
+			if len(body.Instrs) > 0 {
+				first := body.Instrs[0]
+				if first != ssa.Instruction(call) {
+					if _, found := CanReach(serve, first, func(x ssa.Instruction) bool { return x.Block() == header || realExit(x) }, PathQ{BlockInstr: func(x ssa.Instruction) bool { return x == ssa.Instruction(call) }}); found {
+						skip = true
+					}
+				}
+			}
+		}
+		if skip {
+			r2.Bad("(*ServeMux).Serve/all", call.Pos(), "not every registered handler is examined (the per-element helper can be skipped or the loop left early)")
+		} else {
+			r2.OK("(*ServeMux).Serve/all", call.Pos(), "the per-element helper runs for every element of the range")
+		}
+	}
+	// inside the helper: invoke recv.handler exactly when recv.filter.Match(message.Topic)
+	rp := g.Params[0]
+	mp := g.Params[msgArg]
+	var inv *ssa.Call
+	n := 0
+	eachInstr(g, func(in ssa.Instruction) {
+		if k, ok := in.(*ssa.Call); ok && k.Call.IsInvoke() && k.Call.Method.Name() == "Serve" {
+			inv = k
+			n++
+		}
+	})
+	fieldOfRecv := func(v ssa.Value, name string) bool {
+		// value receiver: fields are read through a local copy of the parameter, or Field instructions
+		switch x := v.(type) {
+		case *ssa.Field:
+			_, fld := fieldOf(x)
+			return fld != nil && fld.Name() == name && c.Resolve(x.X) == ssa.Value(rp)
+		case *ssa.UnOp:
+			fa, ok := x.X.(*ssa.FieldAddr)
+			if !ok {
+				return false
+			}
+			_, fld := fieldOf(fa)
+			if fld == nil || fld.Name() != name {
+				return false
+			}
+			if c.Resolve(fa.X) == ssa.Value(rp) {
+				return true
+			}
+			if al, ok := fa.X.(*ssa.Alloc); ok {
+				for _, st := range c.cellStores[al] {
+					if st.Val == ssa.Value(rp) {
+						return true
+					}
+				}
+			}
+		}
+		return false
+	}
+	if n != 1 || !fieldOfRecv(inv.Call.Value, "handler") {
+		r2.Bad(FuncName(g)+"/invoke", g.Pos(), "the per-element helper does not invoke exactly its own element's handler")
+		return
+	}
+	guard := false
+	for _, b := range g.Blocks {
+		iff := blockIf(b)
+		if iff == nil {
+			continue
+		}
+		k, ok := iff.Cond.(*ssa.Call)
+		if !ok || matchM == nil || c.StaticCalleeOf(&k.Call) != matchM {
+			continue
+		}
+		tb, isT := isFieldLoad(k.Call.Args[1], "Message", "Topic")
+		if !fieldOfRecv(k.Call.Args[0], "filter") || !isT || c.Resolve(tb) != ssa.Value(mp) {
+			continue
+		}
+		if DominatedByEdge(g, inv, b, 0, PathQ{}) {
+			first := b.Succs[0].Instrs[0]
+			if first == ssa.Instruction(inv) {
+				guard = true
+			} else if _, skip := CanReach(g, first, realExit, PathQ{BlockInstr: func(x ssa.Instruction) bool { return x == ssa.Instruction(inv) }}); !skip {
+				guard = true
+			}
+		}
+	}
+	if guard {
+		r2.OK(FuncName(g)+"/guard", inv.Pos(), "element's handler is invoked exactly when the element's filter.Match(message.Topic) is true")
+	} else {
+		r2.Bad(FuncName(g)+"/guard", inv.Pos(), "the handler invocation is not guarded exactly by the same element's filter.Match(message.Topic)")
 	}
 }
